@@ -250,7 +250,10 @@ static void run_packetized_case(int k, const std::string & line)
             Bytes buf(usize+1);
             rpipe._rq.clear(); if (r._inputBufferSizeBytesRead < sizeof(uint32)) rpipe._rq.push_back(U(a[2]));  // a1 is for the size word, a2 for the payload
             rpipe._rq.push_back(U(a[3]));
+            const size_t fifoBefore = fifo.size();
             const io_status_t ret = r.Read(&buf[0], usize);
+            if ((!ret.IsError())&&(ret.GetByteCount() == 0)&&(fifoBefore > 0)&&(fifo.size() == fifoBefore)&&(U(a[2]) >= 70000)&&(U(a[3]) >= 70000)&&(wmtu <= rmtu)&&(orc.str().empty()))
+               orc << k << " ORACLE FAIL packetized: Read() made no progress although the stream has bytes for it\n";
             if (ret.IsError()) {o << "Re"; rerr = true;}
             else
             {
